@@ -69,7 +69,31 @@ pub mod generated;
 
 include!("randtypes.rs");
 
+/// Declared maximum vs actual length for types the model has no descriptor for.
+fn mel_oracle_only(ctx: &mut Ctx) {
+	use parity_scale_codec::{Encode, MaxEncodedLen};
+	let mut r = crate::rng::Rng::new(ctx.seed ^ 0x3E17);
+	for _ in 0..200 {
+		let n = r.below(33) as usize;
+		let name = BoundedBytes::<L32>((0..n).map(|_| r.below(256) as u8).collect(), PhantomData);
+		let a = NamedBounded::<L32> { id: r.next() as u32, name: name.clone() };
+		let b = if r.chance(1, 2) { MessageBounded::<L32>::Text(r.next() as u32, name) } else { MessageBounded::<L32>::Tag(7) };
+		let (la, ma) = (a.encode().len(), NamedBounded::<L32>::max_encoded_len());
+		let (lb, mb) = (b.encode().len(), MessageBounded::<L32>::max_encoded_len());
+		if la > ma {
+			ctx.oracle_fail("C13", format!("NamedBounded<L32> (mel_bound(skip_type_params)): max_encoded_len() = {} but a value encodes to {} bytes", ma, la));
+		}
+		if lb > mb {
+			ctx.oracle_fail("C13", format!("MessageBounded<L32> (mel_bound(skip_type_params)): max_encoded_len() = {} but a value encodes to {} bytes", mb, lb));
+		}
+		ctx.count("mel:oracle-only-values", 2);
+	}
+}
+
 pub fn run_all(ctx: &mut Ctx, stream: &str) {
+	if stream == "mel" {
+		mel_oracle_only(ctx);
+	}
 	let filter_owned = std::env::var("VERIF_TYPE_FILTER").ok();
 	let f = filter_owned.as_deref();
 	if std::env::var("VERIF_ONLY_DERIVED").is_ok() {
@@ -88,7 +112,11 @@ pub fn run_all(ctx: &mut Ctx, stream: &str) {
 			TransMarker, Box<TransMarker>, [TransMarker; 2], Rc<TransMarker>, Vec<Box<TransMarker>>, (Box<TransMarker>, u8),
 			TransMarkerVec, Box<TransMarkerVec>, Arc<TransMarkerVec>, [TransMarkerVec; 2],
 			MelDup, Vec<MelDup>, Option<MelDup>, ConstDisc, Vec<ConstDisc>, (ConstDisc, u8), [ConstDisc; 3], MidSkip, Box<MidSkip>, Vec<MidSkip>,
-			SkipOrders, Vec<SkipOrders>, Option<SkipOrders>);
+			SkipOrders, Vec<SkipOrders>, Option<SkipOrders>,
+		OneAndSkipped, Vec<OneAndSkipped>, [OneAndSkipped; 3], VecDeque<OneAndSkipped>, Box<OneAndSkipped>, OneAligned, Vec<OneAligned>, [OneAligned; 2],
+		MixedDisc, Vec<MixedDisc>, (MixedDisc,), Box<MixedDisc>, [MixedDisc; 4], BigGen<u8>, BigGen<u64>, Vec<BigGen<u8>>, Option<BigGen<u64>>,
+			OneAndSkipped, Vec<OneAndSkipped>, [OneAndSkipped; 3], VecDeque<OneAndSkipped>, Box<OneAndSkipped>, OneAligned, Vec<OneAligned>, [OneAligned; 2],
+			MixedDisc, Vec<MixedDisc>, (MixedDisc,), Box<MixedDisc>, [MixedDisc; 4], BigGen<u8>, BigGen<u64>, Vec<BigGen<u8>>, Option<BigGen<u64>>);
 		return;
 	}
 	small!(ctx, stream, f; (), bool, OptionBool, u8, i8, Option<bool>, Result<bool, bool>, Compact<u8>, Compact<u16>,
